@@ -6,7 +6,8 @@ ID = "C01"
 FAMILIES = ("T",)
 RULE = (
     "generated problem specs (1-4 tasks of all kinds, optional/mandatory, release/due on a boundary grid, "
-    "with/without horizon, mixed with resources/constraints/buffers) x admitted schedules obtained by steering pins, "
+    "with/without horizon, mixed with resources/constraints/buffers, and a stratum with task constraints nested in logical operators, optional "
+    "constraints and group precedences under a declared horizon) x admitted schedules obtained by steering pins, "
     "extremal pushes and exhaustive enumeration on small instances; each schedule judged by the z3-free reference rules "
     "T1-T4. Non-trivial = schedule not the default model AND binding (some +-1/flip neighbour violates a task-timing "
     "rule); distinct by SHA-1 of (spec, schedule)."
